@@ -282,3 +282,25 @@ def classify(result: dict) -> Tuple[str, Optional[str]]:
     if all(s == 'CONFIRMED' for s in states):
         return 'confirmed', None
     return 'inconclusive', '; '.join(f'{s}: {m[:120]}' for s, m in msgs)
+
+
+# ----------------------------------------------------------------------------------------------
+class untraced:
+    """run harness set-up code that only handles concrete values outside the CrossHair tracer (about 50x
+    faster); a no-op on plain CPython (replay).  Never pass symbolic values into such a block."""
+
+    def __enter__(self):
+        self._cm = None
+        try:
+            from crosshair.tracers import NoTracing, is_tracing
+            if is_tracing():
+                self._cm = NoTracing()
+                self._cm.__enter__()
+        except ImportError:
+            pass
+        return self
+
+    def __exit__(self, *a):
+        if self._cm is not None:
+            self._cm.__exit__(*a)
+        return False
